@@ -215,10 +215,25 @@ func zzH_C13_journal() {
 // with the end values - nothing for reverted or net-zero changes.
 func zzH_C15_net_changes() {
 	s, addrs, m := zzNewState()
+	// an earlier transaction scope was opened and abandoned (executed, then rolled back without
+	// finalisation, as a block builder does with a transaction it drops): it read a bystander account
+	rules := params.Rules{IsEIP158: true, IsBerlin: true, IsEIP2929: true, IsShanghai: true, IsAmsterdam: true}
+	bystander := common.Address{19: 0x77}
+	one := uint256.Int{1}
+	s.stateObjects[bystander] = newObject(s, bystander, &types.StateAccount{Nonce: 1, Balance: &one, Root: types.EmptyRootHash, CodeHash: types.EmptyCodeHash[:]})
+	s.Prepare(rules, addrs[0], common.Address{}, nil, nil, nil)
+	snap := s.Snapshot()
+	s.SetNonce(bystander, 9, tracing.NonceChangeUnspecified)
+	s.RevertToSnapshot(snap)
+	// the transaction under test
+	s.Prepare(rules, addrs[0], common.Address{}, nil, nil, nil)
+	s.blockAccessIndex = 7
+	m.inAL[0] = true // Prepare warms the sender
 	m0 := zzScript(s, addrs, &m, zzBound("K")) // the model at the start of the current transaction
 	// the real end-of-transaction step (Amsterdam rules, EIP-158 on): finalises or removes every
 	// touched account, records its net changes and hands back the transaction's access list
-	list := s.finaliseAmsterdam(params.Rules{IsEIP158: true, IsAmsterdam: true})
+	list := s.finaliseAmsterdam(rules)
+	zzAssert(list.Accounts[bystander] == nil, "an account touched only by an abandoned transaction does not appear in this transaction's list")
 	zzAssert(s.journal.length() == 0 && s.GetRefund() == 0, "finalisation closes the transaction's journal and refund counter")
 	for i, a := range addrs {
 		gone := m.nonce[i] == 0 && m.bal[i].IsZero() // an account left empty is removed (EIP-161) ...
